@@ -59,6 +59,13 @@ const (
 	// 15.3.4.3-5: call / apply / bind replace an undefined thisArg by the global
 	// object whatever the callee is (for built-in callees too).
 	AltCallUndefinedThisGlobal
+	// 15.3.4.5.1: the argument list of a call of a bound function is built by
+	// appending the call arguments to the bound-arguments slice IN PLACE when its
+	// spare capacity suffices (the capacity left by the append-grown argument
+	// list of the bind call: next power of two >= 1 + number of bound arguments,
+	// minus one), so all calls of one bound function share that memory and a
+	// re-entrant call overwrites the outer call's arguments.
+	AltBoundCallSharesArguments
 	nAltFlags = iota
 )
 
@@ -80,6 +87,7 @@ var AltNames = []string{
 	"arguments-maps-duplicate-parameters",
 	"forin-var-initialiser-per-iteration",
 	"call-apply-bind-undefined-this-becomes-global",
+	"bound-call-shares-argument-memory",
 }
 
 // NAlt is the number of alternative-model switches.
@@ -194,6 +202,11 @@ func (in *Interp) CallFn(f *Obj, this Value, args []Value) Value {
 	defer func() { in.depth-- }()
 	switch {
 	case f.IsBound:
+		if in.Flags&AltBoundCallSharesArguments != 0 {
+			// deliberately the aliasing append of the implementation under test
+			all := append(f.BoundArgs, args...) //nolint:gocritic
+			return in.CallFn(f.BoundTarget, f.BoundThis, all)
+		}
 		all := append(append([]Value(nil), f.BoundArgs...), args...)
 		return in.CallFn(f.BoundTarget, f.BoundThis, all)
 	case f.Native != nil:
